@@ -92,3 +92,26 @@ Proof.
       congruence. }
   rewrite Hi. destruct (has_key k a), (has_key k b); reflexivity.
 Qed.
+
+(* n-ary idempotence: any number of copies of one operand *)
+Lemma union_repeat a n : union (a :: repeat a n) = a.
+Proof.
+  rewrite union_left_nested. induction n as [|n IH]; cbn [repeat fold_left]; [reflexivity|].
+  rewrite union_self. exact IH.
+Qed.
+
+Lemma intersect_repeat a n : intersect (a :: repeat a n) = a.
+Proof.
+  rewrite intersect_left_nested. induction n as [|n IH]; cbn [repeat fold_left]; [reflexivity|].
+  rewrite intersect_self. exact IH.
+Qed.
+
+(* an empty operand: neutral for union, absorbing for intersect *)
+Lemma union_nil_r a : union [a; []] = a.
+Proof. rewrite union_is_first_plus_setdiff. apply app_nil_r. Qed.
+
+Lemma union_nil_l a : union [[]; a] = a.
+Proof. rewrite union_is_first_plus_setdiff. cbn [app]. apply setdiff_empty_r. Qed.
+
+Lemma intersect_nil_r a : intersect [a; []] = [].
+Proof. rewrite intersect_binary. apply filter_none_In. intros r _. reflexivity. Qed.
